@@ -227,6 +227,24 @@ let do_layout () =
     Buffer.add_string bs (string_of_int (int_of_nat (idx_gen (n r) (n t) (n k) (n q) (n a))) ^ " ") done done done;
   pr "%s sym %s\n" id (Buffer.contents bs)
 
+(* ---------- WMEM / WAFV: the token grids of the membership and affinity writers, from the MODEL's writer functions
+   (CliModel.membership_rows / affinity_rows) with fmt := printf "%.6g" ---------- *)
+let g6 (x : Float64.t) : string = let y = fl x in if y <> y then "nan" else Printf.sprintf "%.6g" y
+let lit_words = function 0 -> "?" | 1 -> "a=" | _ -> "?"
+let do_wmem () =
+  let id = "M " ^ tok () in
+  let n = int () in let k = int () in
+  let labels = list_n n tok in
+  let m = chunk k (list_n (n * k) flt) in
+  let rows = membership_rows ar g6 (fun i -> lit_words (int_of_nat i)) labels m (nat_of_int n) (nat_of_int k) in
+  List.iteri (fun i r -> pr "%s line %d : %s\n" id (i + 1) (String.concat " " r)) rows
+let do_wafv () =
+  let id = "V " ^ tok () in
+  let k = int () in let l = int () in let assort = int () = 1 in
+  let aff = list_n (if assort then k * l else k * k * l) flt in
+  let rows = affinity_rows ar g6 (fun i -> string_of_int (int_of_nat i)) (fun i -> lit_words (int_of_nat i)) aff (nat_of_int k) (nat_of_int l) in
+  List.iteri (fun i r -> pr "%s line %d :%s\n" id (i + 1) (String.concat "" (List.map (fun t -> " " ^ t) r))) rows
+
 (* ---------- RESIZE: shape and positions after Tensor::resize on a tensor that held another shape ---------- *)
 let do_resize () =
   let id = "Z " ^ tok () in
@@ -329,6 +347,8 @@ let () =
          | "LAYOUT" -> do_layout ()
          | "WAFF" -> do_waff ()
          | "RESIZE" -> do_resize ()
+         | "WMEM" -> do_wmem ()
+         | "WAFV" -> do_wafv ()
          | "RNG" -> do_rng ()
          | "PARSE" -> do_parse ()
          | "RAFF" -> do_raff ()
